@@ -526,7 +526,7 @@ func ruleR36_2(c *Check) {
 		}
 		r.Check(okv, sv, "commit timestamp given only to entries without a version", s, "e.version assigned although the entry has an explicit version")
 	}
-	r.Exists(n == 1, sv, "version assignment site", nil, "setVersion no longer assigns e.version")
+	r.Exists(n >= 1, sv, "version assignment site", nil, "setVersion no longer assigns e.version")
 	// keepTogether cleared in the else arm
 	okk := false
 	sv.walk(func(x ast.Node) bool {
@@ -606,7 +606,7 @@ func ruleR36_3(c *Check) {
 		guardPanic(n, false)
 	}
 	sd := w.F("badger.DB.SetDiscardTs")
-	r.Exists(len(sd.Sites(selCallName(w, "badger.oracle.setDiscardTs"))) == 1, sd, "SetDiscardTs delegates to the oracle", nil, "SetDiscardTs does not call oracle.setDiscardTs")
+	r.Exists(len(sd.Sites(selCallName(w, "badger.oracle.setDiscardTs"))) >= 1, sd, "SetDiscardTs delegates to the oracle", nil, "SetDiscardTs does not call oracle.setDiscardTs")
 }
 
 func propC36(c *Check) {
@@ -818,7 +818,7 @@ func ruleR11_4(c *Check) {
 		}
 		return true
 	})
-	r.Exists(n == 1, f, "raise site", nil, "Load no longer raises nextTxnTs")
+	r.Exists(n >= 1, f, "raise site", nil, "Load no longer raises nextTxnTs")
 	r.DomAll(f, "txnMark.Done after the loader finished", selCallOn(w.Func("y.WaterMark.Done"), w.Field("badger.oracle.txnMark")), 0, selCallName(w, "badger.KVLoader.Finish"), 0)
 }
 
@@ -850,7 +850,7 @@ func ruleR11_5(c *Check) {
 	done := w.Func("y.WaterMark.Done")
 	r.DomAll(fl, "txnMark.Done after nextTxnTs", selCallOn(done, w.Field("badger.oracle.txnMark")), 0, st, 0)
 	r.DomAll(fl, "increment after Done", selCallName(w, "badger.oracle.incrementNextTs"), 0, selCallOn(done, w.Field("badger.oracle.txnMark")), 0)
-	r.Exists(len(fl.Sites(selCallName(w, "badger.oracle.incrementNextTs"))) == 1, fl, "increment present", nil, "Flush no longer increments nextTxnTs")
+	r.Exists(len(fl.Sites(selCallName(w, "badger.oracle.incrementNextTs"))) >= 1, fl, "increment present", nil, "Flush no longer increments nextTxnTs")
 }
 
 func propC11(c *Check) {
